@@ -246,7 +246,7 @@ func checkC15(p *Prog, r *Report) {
 	di := indexOf(w.Ante, "x/auth/ante.NewDeductFeeDecorator")
 	si := indexOf(w.Ante, "x/auth/ante.NewSigVerificationDecorator")
 	r.Check(di >= 0 && si > di, kp("WIRE", "ante#DeductFee-before-SigVerification"), "fees are deducted by the SDK's DeductFeeDecorator inside the ante chain", p.Pos(w.AntePos), fmt.Sprintf("position %d", di), fmt.Sprintf("chain: %v", w.Ante))
-	okFG := false
+	okFG, okNilChecker := false, false
 	if pk := p.All[Rel("app")]; pk != nil {
 		for _, f := range pk.Syntax {
 			ast.Inspect(f, func(nd ast.Node) bool {
@@ -258,10 +258,118 @@ func checkC15(p *Prog, r *Report) {
 					if sel, ok := c.Args[2].(*ast.SelectorExpr); ok && sel.Sel.Name == "FeeGrantKeeper" {
 						okFG = true
 					}
+					if len(c.Args) == 4 {
+						if tv, ok := pk.TypesInfo.Types[c.Args[3]]; ok && tv.IsNil() {
+							okNilChecker = true
+						}
+					}
 				}
 				return true
 			})
 		}
 	}
 	r.Check(okFG, kp("WIRE", "ante#DeductFee-uses-FeeGrantKeeper"), "fee grants are honoured by the fee decorator", "app/ante.go", "FeeGrantKeeper passed", "NewDeductFeeDecorator is not given app.FeeGrantKeeper")
+	feeWhy := "NewDeductFeeDecorator is given a custom TxFeeChecker: the amount deducted is whatever that function returns, not necessarily the declared fee"
+	if !okNilChecker {
+		// a custom checker is fine when every successful return hands back the transaction's declared fee itself
+		if sa := p.Method(Rel("app"), "App", "setAnteHandler"); sa != nil {
+			for _, cs := range callSites(sa) {
+				if !strings.HasSuffix(cs.Name, "x/auth/ante.NewDeductFeeDecorator") || len(cs.Instr.Common().Args) != 4 {
+					continue
+				}
+				var chk *ssa.Function
+				switch x := cs.Instr.Common().Args[3].(type) {
+				case *ssa.Function:
+					chk = x
+				case *ssa.MakeClosure:
+					chk, _ = x.Fn.(*ssa.Function)
+				case *ssa.ChangeType:
+					chk, _ = x.X.(*ssa.Function)
+				}
+				if chk == nil || chk.Blocks == nil {
+					continue
+				}
+				co := NewOrigin(p, chk)
+				all, n := true, 0
+				for _, ret := range successReturns(chk) {
+					n++
+					t := co.Of(ret.Results[0])
+					if !(t.Op == "call" && strings.HasSuffix(t.Name, ".GetFee") && t.Contains(func(x *Term) bool { return x.Op == "param" })) {
+						all = false
+						feeWhy = fmt.Sprintf("the custom TxFeeChecker %s returns %v as the fee to deduct, not the transaction's declared fee (tx.GetFee()): payer and collector move by a different amount than declared", FuncName(chk), t)
+					}
+				}
+				if all && n > 0 {
+					okNilChecker = true
+				}
+			}
+		}
+	}
+	r.Check(okNilChecker, kp("WIRE", "ante#DeductFee-default-fee-checker"), "the fee decorator uses the SDK's own fee checker (nil), whose effective fee is the declared fee: exactly the declared fee moves from the payer to the collector", "app/ante.go",
+		"NewDeductFeeDecorator(…, nil) or a checker returning tx.GetFee()", feeWhy)
+
+	// the ante chain writes no custom-module state: ante writes are committed even when a message of the transaction fails later
+	// (baseapp writes the ante branch before running the messages), so they would survive a failed transaction.
+	aolM, didM := buildAolModel(p), buildDidModel(p)
+	rawMut := map[*ssa.Function]string{}
+	for _, so := range p.StoreOps() {
+		if so.Op != "Set" && so.Op != "Delete" {
+			continue
+		}
+		for _, mod := range []string{"x/aol", "x/did", "x/pnft"} {
+			if strings.HasPrefix(so.KeyRoot, mod+"/keeper.") {
+				rawMut[so.Fn] = mod + " (" + so.Op + " in " + FuncName(so.Fn) + ")"
+			}
+		}
+	}
+	nCustomDeco := 0
+	for _, ctor := range w.Ante {
+		if !strings.HasPrefix(ctor, "x/") && !strings.HasPrefix(ctor, "app") && !strings.HasPrefix(ctor, "types/") {
+			continue // SDK / ibc decorator
+		}
+		nCustomDeco++
+		i := strings.LastIndex(ctor, ".")
+		cf := p.Func(Rel(ctor[:i]), ctor[i+1:])
+		key := kp("REACH", "ante:"+ctor+"#no-custom-state-write")
+		if cf == nil {
+			r.Undecided(key, "ante decorators of the module write no aol/did/pnft state", p.Pos(w.AntePos), "constructor "+ctor+" not found")
+			continue
+		}
+		// the decorator's methods: every method of the constructor's result type
+		var roots []*ssa.Function
+		if res := cf.Signature.Results(); res.Len() > 0 {
+			for _, fn := range p.ModFuncs {
+				if rv := fn.Signature.Recv(); rv != nil && strings.TrimPrefix(rv.Type().String(), "*") == strings.TrimPrefix(res.At(0).Type().String(), "*") {
+					roots = append(roots, fn)
+				}
+			}
+		}
+		roots = append(roots, cf)
+		reach := p.ReachFrom(roots, func(f *ssa.Function) bool { return InModule(f) || pkgPathOf(f) == nftKeeperPath })
+		hit := ""
+		for _, f := range reach.Order {
+			if wh, ok := rawMut[f]; ok {
+				hit = wh + " via " + reach.Chain(f)
+				break
+			}
+			if a := aolM.acc[f]; a != nil && (a.Op == "Set" || a.Op == "Delete") {
+				hit = "AOL " + a.Family + " via " + reach.Chain(f)
+				break
+			}
+			if didM.setters[f] {
+				hit = "DID via " + reach.Chain(f)
+				break
+			}
+			if n, ok := isNftKeeperMethod(f); ok {
+				if _, m := nftMutators[n]; m {
+					hit = "PNFT (x/nft " + n + ") via " + reach.Chain(f)
+					break
+				}
+			}
+		}
+		r.Check(hit == "", key, "ante decorators of the module write no aol/did/pnft state", p.Pos(w.AntePos),
+			fmt.Sprintf("%d functions reachable from %s's decorator, none writes custom-module state", len(reach.Order), ctor),
+			fmt.Sprintf("the ante decorator built by %s writes %s: ante-handler writes are committed before the messages run and are kept when a later message fails, so a failed transaction leaves custom-module state behind", ctor, hit))
+	}
+	r.Count("module-defined-ante-decorators", nCustomDeco)
 }
